@@ -161,6 +161,9 @@ macro remaining(r) = (r.pos.Start < r.sourceLength ? r.pos.Padding + r.sourceLen
 
 // col(a, h, k): tab-expanded column reached after the bytes [h, k) of byte array a (absolute indices)
 ghost col(a int, h int, k int) int
+defaxiom colDef: (forall a int, h int {col(a, h, h)} :: col(a, h, h) == 0) &&
+  (forall a int, h int, k int {col(a, h, k)} :: k >= h ==> col(a, h, k+1) == col(a, h, k) + (membyte(a, k) == '\t' ? 4 - col(a, h, k) % 4 : 1)) &&
+  (forall a int, h int, k int {col(a, h, k)} :: k >= h ==> col(a, h, k) >= 0)
 macro colOf(r) = col(arrof(r.source), offof(r.source) + r.head, offof(r.source) + r.pos.Start)
 
 func (*reader).Source
@@ -218,6 +221,22 @@ func (*reader).Advance
   loop 0 inv [moved] remaining(r) - n == old(remaining(r)) - old(n)
   loop 0 inv [sameLine] (old(n) - n) < old(r.pos.Padding + r.pos.Stop - r.pos.Start) ==> (r.line == old(r.line) && r.head == old(r.head) && r.pos.Stop == old(r.pos.Stop) && r.pos.Padding + r.pos.Stop - r.pos.Start == old(r.pos.Padding + r.pos.Stop - r.pos.Start) - (old(n) - n))
   loop 0 dec n
+
+func (*reader).LineOffset
+  uses colDef
+  requires readerInv(r)
+  ensures readerInv(r)
+  ensures [col] result == colOf(r) - r.pos.Padding
+  ensures sameSeg(r.pos, old(r.pos)) && r.line == old(r.line) && r.head == old(r.head)
+  modifies r.lineOffset
+  loop 0 inv r.head <= i && i <= r.pos.Start && v == col(arrof(r.source), offof(r.source) + r.head, offof(r.source) + i) && v >= 0
+  loop 0 inv r.lineOffset < 0
+  loop 0 dec r.pos.Start - i
+
+func (*reader).ResetPosition
+  requires readerBase(r)
+  ensures readerInv(r) && r.pos.Start == 0 && r.line == 0 && r.pos.Padding == 0
+  modifies r.lineOffset, r.peekedLine, r.pos, r.head, r.line
 
 func (*reader).SetPadding
   requires readerInv(r) && v >= 0
